@@ -58,3 +58,93 @@ def _(self, loader, node):
     raises_msg(RecognitionError, lambda m: cites(m))
     ensures(node.kind == SCALAR)
     ensures(is_obj_of(yielded(), 'path'))
+
+
+@contract("yatiml/constructors.py::Constructor.__type_matches")
+def _(self, obj, type_):
+    properties('C01', 'C04')
+    sort('obj', 'PyV')
+    sort('type_', 'Ty')
+    # exactly the statement's conformance check, for every value and type
+    ensures(result == tm(obj, type_))
+    invariant(0, lambda _i: _i <= len(ty_members(type_))
+              and not tm_any(obj, ty_members(type_), _i))
+    invariant(1, lambda _i: _i <= len(py_items(obj))
+              and tm_all(py_items(obj), ty_elem(type_), _i))
+    invariant(2, lambda _i: _i <= len(py_keys(obj))
+              and tm_pairs(py_keys(obj), py_vals(obj), ty_key(type_),
+                           ty_dval(type_), _i))
+
+
+@contract("yatiml/constructors.py::Constructor.__check_no_missing_attributes")
+def _(self, node, mapping):
+    properties('C01', 'C08', 'C17')
+    sort('mapping', 'PyDict')
+    requires(node.kind == MAP)
+    # returns normally exactly when every required parameter has an argument
+    # and every argument that is present conforms to its parameter's type
+    raises(RecognitionError, when=not cna_ok(mapping, self.class_,
+                                        cls_nparams(self.class_)))
+    raises_msg(RecognitionError, lambda m: cites(m))
+    ensures(cna_ok(mapping, self.class_, cls_nparams(self.class_)))
+    invariant(0, lambda _i: _i <= cls_nparams(self.class_)
+              and cna_ok(mapping, self.class_, _i))
+
+
+@contract("yatiml/constructors.py::Constructor.__type_check_attributes")
+def _(self, node, mapping, argspec):
+    properties('C01', 'C08', 'C17')
+    sort('mapping', 'PyDict')
+    sort('argspec', 'ArgSpec')
+    requires(node.kind == MAP)
+    requires(keys_from(py_keys(mapping), node.pairs, len(py_keys(mapping))))
+    raises(RecognitionError, when=not tca_ok(
+        py_keys(mapping), py_vals(mapping), argspec, len(py_keys(mapping))))
+    raises_msg(RecognitionError, lambda m: cites(m))
+    ensures(tca_ok(py_keys(mapping), py_vals(mapping), argspec,
+                   len(py_keys(mapping))))
+    invariant(0, lambda _i: node == old(node) and _i <= len(py_keys(mapping))
+              and tca_ok(py_keys(mapping), py_vals(mapping), argspec, _i))
+    # the key / value node whose position the message cites
+    invariant(1, lambda _i, _acc: _i <= len(node.pairs)
+              and len(_acc) == cnt(node.pairs, py_str(key), _i))
+    invariant(2, lambda _i, _acc: _i <= len(node.pairs)
+              and len(_acc) == cnt(node.pairs, py_str(key), _i))
+
+
+@contract("yatiml/constructors.py::Constructor.__split_off_extra_attributes")
+def _(self, mapping, known_attrs):
+    # dict surgery (copy / OrderedDict / del): outside the verified subset;
+    # compared with an independent oracle by a bounded native stand-in
+    trusted()
+    bounded()
+    sort('mapping', 'PyDict')
+    sort('known_attrs', 'Set[str]')
+    result_sort('PyDict')
+
+
+@contract("yatiml/constructors.py::Constructor.__call__")
+def _(self, loader, node):
+    properties('C01', 'C04', 'C08', 'C17')
+    sort('loader', 'resolver')
+    modifies(node)
+    # only RecognitionError (its message citing a position) or PyYAML's own
+    # error leaves the constructor, whatever the user's __init__ raises
+    raises(RecognitionError)
+    raises(YAMLError)
+    raises_msg(RecognitionError, lambda m: cites(m))
+    # the user's __init__ has run, and it ran on a mapping that passed the
+    # attribute checks: every required parameter present, every argument
+    # conforming to its parameter's type / annotation, no unknown keys
+    # unless the class takes _yatiml_extra
+    ensures(init_called())
+    ensures(cna_ok(constructed(), self.class_, cls_nparams(self.class_)))
+    ensures(tca_ok(py_keys(constructed()), py_vals(constructed()),
+                   cls_argspec(self.class_), len(py_keys(constructed()))))
+    ensures(in_strs('_yatiml_extra', as_args(cls_argspec(self.class_)))
+            or init_args() == constructed())
+    # everything below an unknown key was made plain data before anything
+    # was constructed (C04)
+    ensures(node.kind == MAP and extras_plain(node.pairs, strs_remove(
+        strs_remove(as_args(cls_argspec(self.class_)), 'self'),
+        '_yatiml_extra'), len(node.pairs)))
